@@ -613,7 +613,7 @@ func c17Scripts(r *verifkit.Rand, c *c17Cfg, allOK bool) map[string]c17Script {
 			}
 		}
 		lat := c17Lats[r.Intn(len(c17Lats))]
-		if r.Intn(3) == 0 {
+		if r.Intn(3) != 0 {
 			lat = c17Lats[r.Intn(4)]
 		}
 		// the +(i+1) ms keeps every completion instant distinct from every other and from the whole-second timers
@@ -653,7 +653,7 @@ func c17RaceCases(out *verifkit.Out, r *verifkit.Rand, n int) {
 		out.Count("mode:race-" + shape)
 		out.T("pn "+c.encode(), c17ParallelNums(c))
 		dl := c17Long
-		if r.Intn(2) == 0 {
+		if r.Intn(3) == 0 {
 			dl = c17Deadlines[r.Intn(len(c17Deadlines))]
 		}
 		callers := 1
@@ -662,7 +662,7 @@ func c17RaceCases(out *verifkit.Out, r *verifkit.Rand, n int) {
 		}
 		scs := make([]*c17Scenario, callers)
 		for k := range scs {
-			scs[k] = &c17Scenario{cfg: c, scripts: c17Scripts(r, c, r.Intn(100) < 45), deadline: time.Duration(dl) * time.Millisecond}
+			scs[k] = &c17Scenario{cfg: c, scripts: c17Scripts(r, c, r.Intn(100) < 65), deadline: time.Duration(dl) * time.Millisecond}
 		}
 		results := make([]*c17Result, callers)
 		c17Bubble(func() {
